@@ -304,12 +304,7 @@ func DecodeEntryFrom(r io.Reader) (*Entry, uint32, error) {
 	entry.Meta = header.Meta
 	entry.ExpiresAt = header.ExpiresAt
 
-	if cap(entry.Key) < keyLen {
-		entry.Key = make([]byte, keyLen)
-	} else {
-		entry.Key = entry.Key[:keyLen]
-	}
-	if _, err := io.ReadFull(hashReader, entry.Key); err != nil {
+	if entry.Key, err = readFullBounded(hashReader, entry.Key, keyLen); err != nil {
 		entry.DecrRef()
 		if errors.Is(err, io.EOF) || errors.Is(err, io.ErrUnexpectedEOF) {
 			return nil, 0, ErrPartialEntry
@@ -317,12 +312,7 @@ func DecodeEntryFrom(r io.Reader) (*Entry, uint32, error) {
 		return nil, 0, err
 	}
 
-	if cap(entry.Value) < valueLen {
-		entry.Value = make([]byte, valueLen)
-	} else {
-		entry.Value = entry.Value[:valueLen]
-	}
-	if _, err := io.ReadFull(hashReader, entry.Value); err != nil {
+	if entry.Value, err = readFullBounded(hashReader, entry.Value, valueLen); err != nil {
 		entry.DecrRef()
 		if errors.Is(err, io.EOF) || errors.Is(err, io.ErrUnexpectedEOF) {
 			return nil, 0, ErrPartialEntry
@@ -345,6 +335,34 @@ func DecodeEntryFrom(r io.Reader) (*Entry, uint32, error) {
 
 	recordLen := uint32(headerBytes) + uint32(keyLen) + uint32(valueLen) + crc32.Size
 	return entry, recordLen, nil
+}
+
+// readFullBounded reads exactly n bytes into dst (reusing its capacity). The
+// length n comes from an unverified header, so when dst is too small the buffer
+// grows in chunks as bytes actually arrive instead of being allocated up front.
+func readFullBounded(r io.Reader, dst []byte, n int) ([]byte, error) {
+	const chunk = 16 << 10
+	if cap(dst) >= n || n <= chunk {
+		if cap(dst) < n {
+			dst = make([]byte, n)
+		}
+		dst = dst[:n]
+		_, err := io.ReadFull(r, dst)
+		return dst, err
+	}
+	dst = dst[:0]
+	for len(dst) < n {
+		step := min(n-len(dst), chunk)
+		old := len(dst)
+		dst = append(dst, make([]byte, step)...)
+		if _, err := io.ReadFull(r, dst[old:]); err != nil {
+			if err == io.EOF && old > 0 {
+				err = io.ErrUnexpectedEOF
+			}
+			return dst[:0], err
+		}
+	}
+	return dst, nil
 }
 
 // EstimateEncodeSize estimates the encoded size of an entry in the WAL/value log.
